@@ -215,19 +215,6 @@ def regexLine (line : String) : String :=
     | some p, some lp =>
       escField (String.ofList (redirectBody (optField scheme) (optField host) p (hasPath == "1") lp))
     | _, _ => "bad-op"
-  | ["repaired:ValidatePath", s] => if validatePathRepaired (unescField s).toList then "1" else "0"
-  | ["repaired:compose:mainRewrite", typ, repl, path] =>
-    let r := (unescField repl).toList
-    let m := if typ == "ReplaceFullPath" then some (PathMod.full r) else if typ == "ReplacePrefixMatch" then some (PathMod.pfx r) else none
-    match m with
-    | some m => escField (String.ofList (mainRewriteRepaired m (unescField path).toList))
-    | none => "bad-op"
-  | ["repaired:compose:rewriteFilter", typ, repl, path] =>
-    let r := (unescField repl).toList
-    let m := if typ == "ReplaceFullPath" then some (PathMod.full r) else if typ == "ReplacePrefixMatch" then some (PathMod.pfx r) else none
-    match m with
-    | some m => escField (String.ofList (mainRewriteRepaired m (unescField path).toList ++ " break".toList))
-    | none => "bad-op"
   | [name, s] =>
     match validators.lookup name with
     | some f => if f (unescField s).toList then "1" else "0"
